@@ -186,7 +186,7 @@ func (l *queryLog) handleQueryLogConfig(w http.ResponseWriter, r *http.Request) 
 		return
 	}
 
-	defer l.conf.ConfigModified()
+	defer l.configModified()
 
 	l.confMu.Lock()
 	defer l.confMu.Unlock()
@@ -210,6 +210,16 @@ func (l *queryLog) handleQueryLogConfig(w http.ResponseWriter, r *http.Request) 
 	}
 
 	l.conf = &conf
+}
+
+// configModified calls the callback that notifies about a changed
+// configuration.  l.confMu must not be locked: l.conf is replaced under it.
+func (l *queryLog) configModified() {
+	l.confMu.RLock()
+	f := l.conf.ConfigModified
+	l.confMu.RUnlock()
+
+	f()
 }
 
 // handlePutQueryLogConfig is the handler for the PUT
@@ -250,7 +260,7 @@ func (l *queryLog) handlePutQueryLogConfig(w http.ResponseWriter, r *http.Reques
 		return
 	}
 
-	defer l.conf.ConfigModified()
+	defer l.configModified()
 
 	l.confMu.Lock()
 	defer l.confMu.Unlock()
